@@ -1,5 +1,8 @@
 import RegexVerif.Model.Class
 import RegexVerif.Lemmas.Class
+import RegexVerif.Lemmas.ClassCanon
+import RegexVerif.Lemmas.ClassBuild
+import RegexVerif.Generated.Class
 
 /-!
 C16 — character-class membership is exact set algebra.
@@ -119,5 +122,145 @@ theorem singleton_reduce_mem (cat : Nat → Nat → Bool) (c : Class) :
 
 example : (Class.leaf { ranges := [(65, 65)] }).isSingleton = true ∧
     (Class.leaf { ranges := [(65, 65)], neg := true }).isSingletonInverse = true := by decide
+
+/-! ## `canonicalize` -/
+
+/-- **`canonicalize` does not change membership** of any valid rune: sorting, merging overlapping or
+abutting ranges (including the early exit once a range reaches U+10FFFF), and the three normal forms
+("everything but a gap" → negated gap; one range covering everything → `anything`, categories
+dropped; ranges omit one character and there are categories → `anything` or negated singleton,
+decided by asking the categories about that character) all preserve
+(ranges ∨ categories) xor negate.  `hasSub` says whether the class has a subtractor (the normal forms
+are then skipped); the subtractor itself is untouched, so membership of the whole class is unchanged
+too (`canonicalize_mem_class`). -/
+theorem canonicalize_mem (cat : Nat → Nat → Bool) (hasSub : Bool) (f : Flat) (ch : Nat) (hch : ch ≤ maxRune) :
+    (f.canonicalize cat hasSub).memAlg cat ch = f.memAlg cat ch :=
+  Flat.canonicalize_mem cat hasSub f ch hch
+
+theorem canonicalize_mem_class (cat : Nat → Nat → Bool) (c : Class) (ch : Nat) (hch : ch ≤ maxRune) :
+    memAlg cat (c.withFlat (c.flat.canonicalize cat c.hasSub)) ch = memAlg cat c ch := by
+  cases c with
+  | leaf f => exact Flat.canonicalize_mem cat false f ch hch
+  | minus f s => simp only [Class.withFlat, Class.flat, Class.hasSub, memAlg, Flat.canonicalize_mem cat true f ch hch]
+
+/-- the normal forms at work: `[\x00-ac-\x{10FFFF}]` becomes `[^b]`, and `[\x00-46-\x{10FFFF}\p{5}]`
+(toy category 5 = multiples of 5, and '5' = 53 is not one) becomes `[^5]` -/
+example : (({ ranges := [(99, maxRune), (0, 97)] } : Flat).canonicalize sampleCat false) = { ranges := [(98, 98)], neg := true } := by
+  decide
+example : (({ ranges := [(54, maxRune), (0, 52)], cats := [(5, false)] } : Flat).canonicalize sampleCat false)
+    = { ranges := [(53, 53)], neg := true } := by decide
+example : (({ ranges := [(56, maxRune), (0, 54)], cats := [(5, false)] } : Flat).canonicalize sampleCat false)
+    = { ranges := [(0, maxRune)], anything := true } := by decide
+
+/-- **`canonicalize` produces the canonical form** the lookups rely on: if every range is a
+non-empty interval, the resulting list is sorted, its ranges neither overlap nor abut, and are
+non-empty — in particular it satisfies the precondition of `memImpl_eq_memAlg`. -/
+theorem canonicalize_canonical (cat : Nat → Nat → Bool) (hasSub : Bool) (f : Flat)
+    (hw : ∀ r ∈ f.ranges, r.1 ≤ r.2) :
+    Canon (f.canonicalize cat hasSub).ranges ∧ LookupOk (f.canonicalize cat hasSub).ranges :=
+  ⟨Flat.canonicalize_canon cat hasSub f hw, (Flat.canonicalize_canon cat hasSub f hw).lookupOk⟩
+
+example : (({ ranges := [(99, 102), (97, 100), (120, 120), (103, 103), (0x10FFFF, 0x10FFFF), (50, 0x10FFFF)] } : Flat).canonicalize sampleCat true).ranges
+    = [(50, 0x10FFFF)] := by decide
+example : (({ ranges := [(99, 102), (97, 100), (120, 120), (103, 103)] } : Flat).canonicalize sampleCat false).ranges
+    = [(97, 103), (120, 120)] := by decide
+
+/-! ## building operations -/
+
+/-- **`addRange` adds exactly the range to the positive side** (`addChar` is the case `lo = hi`):
+membership afterwards is ((old ranges ∨ categories ∨ lo ≤ ch ≤ hi) xor negate), whatever normal form
+`canonicalize` then chooses. -/
+theorem addRange_mem (cat : Nat → Nat → Bool) (hasSub : Bool) (f : Flat) (lo hi ch : Nat) (hch : ch ≤ maxRune) :
+    (f.addRange cat hasSub lo hi).memAlg cat ch = ((f.pos cat ch || inRange (lo, hi) ch) != f.neg) := by
+  unfold Flat.addRange
+  rw [Flat.canonicalize_mem cat hasSub _ ch hch]
+  simp only [Flat.memAlg, Flat.pos, inRanges_append, inRanges_cons, inRanges_nil, Bool.or_false]
+  cases inRanges f.ranges ch <;> cases inCats cat f.cats ch <;> simp
+
+/-- **The complement construction of `addNegativeRanges` is exact** on ascending, disjoint,
+non-empty ranges none of which ends at U+10FFFE: over the valid runes the constructed list contains
+exactly the runes outside the given ranges.  (The code tests `hi < MaxRune` strictly, so a list ending
+at U+10FFFE would lose U+10FFFF — see the counter-instance below; `posix_tables_ok` shows that no
+table in the source is of that kind.) -/
+theorem negatedRanges_mem (rs : List (Nat × Nat)) (hok : NegOk rs) (ch : Nat) (hch : ch ≤ maxRune) :
+    inRanges (negGo 0 rs) ch = !inRanges rs ch := by
+  rw [negGo_mem ch hch rs 0 (by decide) (fun _ _ => Nat.zero_le _) hok]
+  simp
+
+example : negGo 0 [(65, 90), (97, 122)] = [(0, 64), (91, 96), (123, maxRune)] := by decide
+/-- the latent off-by-one: the complement of `[\x00-\x{10FFFE}]` comes out empty -/
+example : negGo 0 [(0, maxRune - 1)] = [] ∧ ¬ NegOk [(0, maxRune - 1)] := by decide
+
+/-- **Facts regenerated from the source on every run:** every POSIX table of `addNamedASCII`
+satisfies the precondition of `negatedRanges_mem`, consists of non-empty intervals, and the
+linear-scan threshold of `charInSlow` is the one the model uses. -/
+theorem posix_tables_ok :
+    (∀ t ∈ RegexVerif.Generated.posixTables, NegOk t.2) ∧ RegexVerif.Generated.linearScanMax = 4 ∧
+    RegexVerif.Generated.posixTables.length = 12 := by decide
+
+/-- **`scanCharSet` builds the union of its items.**  For a class `[` (`^`)? item… (`-[sub]`)? `]`
+read without IgnoreCase — every item added with `addRange` / `addRanges` / `addNegativeRanges` /
+`addCategories` while the class is marked `building`, then one full `canonicalize` — the head
+`CharSet` matches a valid rune exactly when (some item matches it) xor (`^` was written).
+Holds for every item list; `[:^name:]` tables must satisfy `NegOk` (they do: `posix_tables_ok`).
+Before commit 493eae7 this was false (`[\D5]` under ECMAScript). -/
+theorem build_mem (cat : Nat → Nat → Bool) (neg : Bool) (items : List Item) (hasSub : Bool)
+    (hok : ∀ it ∈ items, it.Ok) (ch : Nat) (hch : ch ≤ maxRune) :
+    (build cat neg items hasSub).memAlg cat ch = (items.any (fun it => it.mem cat ch) != neg) := by
+  have h0 : BuildInv cat neg ({ neg := neg, building := true } : Flat) :=
+    ⟨rfl, rfl, fun h => by cases h⟩
+  obtain ⟨hinv, hpos⟩ := foldl_addItem_spec cat neg items _ h0 hok
+  unfold build Flat.finish
+  rw [Flat.canonicalize_mem cat hasSub _ ch hch]
+  have := hpos ch hch
+  unfold buildItems
+  simp only [Flat.memAlg]
+  show ((List.foldl (Flat.addItem cat) _ items).pos cat ch != (List.foldl (Flat.addItem cat) _ items).neg) = _
+  rw [this, hinv.negEq]
+  simp [Flat.pos]
+
+/-- the class's ranges come out canonical (so the lookups are exact on it) when the items' ranges are
+non-empty intervals -/
+theorem build_canonical (cat : Nat → Nat → Bool) (neg : Bool) (items : List Item) (hasSub : Bool)
+    (hok : ∀ it ∈ items, it.Wf ∧ it.Ok) :
+    Canon (build cat neg items hasSub).ranges ∧ LookupOk (build cat neg items hasSub).ranges := by
+  have hw : (buildItems cat neg items).Wf :=
+    foldl_addItem_wf cat items _ (by intro r hr; cases hr) hok
+  exact canonicalize_canonical cat hasSub _ hw
+
+/-- ECMAScript `[\D5]`: `\D` is the pair of ranges around 0-9; the class must contain '5' (53), and
+`[^\p{2}\P{2}]` (a category and its negation) must be empty -/
+example : (build sampleCat false [.ranges [(0, 47), (58, maxRune)], .range 53 53] false) = { ranges := [(0, 47), (53, 53), (58, maxRune)] } ∧
+    (build sampleCat false [.ranges [(0, 47), (58, maxRune)]] false) = { ranges := [(48, 57)], neg := true } ∧
+    (build sampleCat false [.ranges [(0, 47), (58, maxRune)], .range 53 53] false).memAlg sampleCat 53 = true ∧
+    (build sampleCat true [.cats [(2, false)], .cats [(2, true)]] false).memAlg sampleCat 7 = false := by decide
+
+/-- **`addSet` is union** on the positive side (callers require both classes un-negated and
+subtraction-free, `IsMergeable`): with truthful `anything` flags, membership afterwards is
+((own ranges ∨ own categories ∨ the other's ranges ∨ the other's categories) xor own negate). -/
+theorem addSet_mem (cat : Nat → Nat → Bool) (hasSub : Bool) (f s : Flat) (hf : f.AnyOk cat) (hs : s.AnyOk cat)
+    (ch : Nat) (hch : ch ≤ maxRune) :
+    (f.addSet cat hasSub s).memAlg cat ch = ((f.pos cat ch || s.pos cat ch) != f.neg) :=
+  Flat.addSet_mem cat hasSub f s hf hs ch hch
+
+example : (({ ranges := [(97, 99)], cats := [(7, false)] } : Flat).addSet sampleCat false { ranges := [(98, 104)], cats := [(7, true)] })
+    = { ranges := [(0, maxRune)], anything := true } := by decide
+
+/-- **`addCaseEquivalences` closes every level under case equivalence** (`orbit i` = the other
+members of `i`'s `SimpleFold` orbit): afterwards a valid rune is in the class exactly when, level
+by level, ((it or a rune it is an equivalent of lies in a range, or a category entry accepts it) xor
+negate) and it is not in the likewise folded subtractor — the subtractor is folded too (commit
+ec20cf4), and the normal forms are taken only afterwards (commit d62d6ac). -/
+theorem caseEquiv_mem (cat : Nat → Nat → Bool) (orbit : Nat → List Nat) (c : Class) (hc : Class.AnyOk cat c)
+    (ch : Nat) (hch : ch ≤ maxRune) :
+    memAlg cat (Class.addCaseEquivalences cat orbit c) ch = memAlgFold cat orbit c ch ∧
+    (∀ rs, foldHit orbit rs ch = true ↔ ∃ r ∈ rs, ∃ i, r.1 ≤ i ∧ i ≤ r.2 ∧ ch ∈ orbit i) :=
+  ⟨Class.addCaseEquivalences_mem cat orbit c hc ch hch, fun rs => foldHit_iff orbit rs ch⟩
+
+/-- `(?i)[a-z-[b]]` with a toy orbit (letter ↔ letter ∓ 32): 'B' (66) and 'b' are both removed -/
+example :
+    let orbit : Nat → List Nat := fun i => if 97 ≤ i ∧ i ≤ 122 then [i - 32] else if 65 ≤ i ∧ i ≤ 90 then [i + 32] else []
+    let c := Class.addCaseEquivalences sampleCat orbit (.minus { ranges := [(97, 122)] } (.leaf { ranges := [(98, 98)] }))
+    memAlg sampleCat c 66 = false ∧ memAlg sampleCat c 98 = false ∧ memAlg sampleCat c 67 = true := by decide
 
 end RegexVerif.Props.C16
